@@ -201,7 +201,10 @@ type dirTree struct {
 	files map[string][]byte // relative path -> content
 }
 
-func readDirTree(root string) *dirTree {
+// readDirTree copies the tree under root. Chunk files are created with O_EXCL
+// and never rewritten, so a file whose size equals the copy in prev is taken
+// from prev instead of being read again.
+func readDirTree(root string, prev *dirTree) *dirTree {
 	t := &dirTree{files: map[string][]byte{}}
 	var walk func(rel string)
 	walk = func(rel string) {
@@ -215,6 +218,14 @@ func readDirTree(root string) *dirTree {
 				t.dirs = append(t.dirs, p)
 				walk(p)
 				continue
+			}
+			if prev != nil {
+				if old, ok := prev.files[p]; ok {
+					if info, err := e.Info(); err == nil && info.Size() == int64(len(old)) {
+						t.files[p] = old
+						continue
+					}
+				}
 			}
 			b, err := os.ReadFile(filepath.Join(root, p))
 			if err != nil {
